@@ -19,6 +19,10 @@ let string_of_n x = Z.to_string (z_of_n x)
 let n_of_int i = n_of_z (Z.of_int i)
 let int_of_n x = Z.to_int (z_of_n x)
 
+module Nat_conv = struct
+  let rec nat_of_int (i : int) : Datatypes.nat = if i <= 0 then Datatypes.O else Datatypes.S (nat_of_int (i - 1))
+end
+
 let split_on c s = Stdlib.List.filter (fun t -> t <> "") (Stdlib.String.split_on_char c s)
 
 (* ---------- fs: free-space manager ---------- *)
@@ -165,10 +169,116 @@ let run_open toks =
     open_result_string img (Recovery.open_image cfg img)
   | _ -> failwith "open: missing path"
 
+(* ---------- pure codec functions ---------- *)
+let parse_exts (s : string) : (coq_N * coq_N) list =
+  if s = "-" then [] else
+  Stdlib.List.map (fun e -> match Stdlib.String.split_on_char ':' e with
+      | [a; b] -> (n_of_string a, n_of_string b) | _ -> failwith "bad extent")
+    (Stdlib.String.split_on_char ',' s)
+let exts_str (l : (coq_N * coq_N) list) =
+  if l = [] then "-" else
+  Stdlib.String.concat "," (Stdlib.List.map (fun (a, b) -> string_of_n a ^ ":" ^ string_of_n b) l)
+let hash_str l = Stdlib.Printf.sprintf "%016Lx" (fnv_bytes l)
+
+let run_codec toks =
+  match toks with
+  | "crc" :: seed :: h :: _ -> string_of_n (Crc32c.crc32c (n_of_string seed) (bytes_of_hex h))
+  | "rtok" :: sector :: h :: _ -> string_of_n (Codec.record_token (n_of_string sector) (bytes_of_hex h))
+  | "stok" :: sector :: h :: _ -> string_of_n (Codec.seq_token (n_of_string sector) (bytes_of_hex h))
+  | "marker" :: sector :: remaining :: blocks :: _ ->
+    let run = Codec.marker_run (n_of_string sector) (n_of_string remaining) (Nat_conv.nat_of_int (int_of_string blocks)) in
+    let all = Stdlib.List.concat run in
+    Stdlib.Printf.sprintf "%s %d" (hash_str all) (Stdlib.List.length all)
+  | "jenc" :: gen :: state :: exts :: _ ->
+    let g = n_of_string gen and e = parse_exts exts in
+    if state = "1" then
+      (if MetaJournal.encode_active_ok g e then
+         let img = MetaJournal.encode_journal g Constants.coq_JOURNAL_ACTIVE e in
+         Stdlib.Printf.sprintf "ok %s %d" (hash_str img) (Stdlib.List.length img)
+       else "err")
+    else
+      (if g = N0 then "err" else
+         let img = MetaJournal.encode_journal g Constants.coq_JOURNAL_CLEAR [] in
+         Stdlib.Printf.sprintf "ok %s %d" (hash_str img) (Stdlib.List.length img))
+  | "jdec" :: total :: h :: _ ->
+    let d = bytes_of_hex h in
+    let rec take n l = if n = 0 then [] else match l with [] -> [] | x :: t -> x :: take (n - 1) t in
+    let rec drop n l = if n = 0 then l else match l with [] -> [] | _ :: t -> drop (n - 1) t in
+    (match MetaJournal.decode_journal (take 12288 d) (drop 12288 d) (n_of_string total) with
+     | None -> "corrupt"
+     | Some ((g, slot), e) -> Stdlib.Printf.sprintf "ok %s %s %s" (string_of_n g) (string_of_n slot) (exts_str e))
+  | "menc" :: v :: recs :: size :: dev :: blk :: frag :: created :: updated :: _ ->
+    let m = { MetaJournal.m_version = n_of_string v; m_records = n_of_string recs; m_size = n_of_string size;
+              m_device = n_of_string dev; m_block = n_of_string blk; m_frag = n_of_string frag;
+              m_created = n_of_string created; m_updated = n_of_string updated; m_generation = N0;
+              m_tail = Bytes.zeros (Nat_conv.nat_of_int 48) } in
+    hex_of_bytes (MetaJournal.encode_meta m)
+  | "mdec" :: h :: _ ->
+    (match MetaJournal.decode_meta (bytes_of_hex h) with
+     | None -> "none"
+     | Some m -> Stdlib.Printf.sprintf "ok %s %s %s %s %s %s %s"
+                   (string_of_n m.MetaJournal.m_version) (string_of_n m.MetaJournal.m_records)
+                   (string_of_n m.MetaJournal.m_size) (string_of_n m.MetaJournal.m_device)
+                   (string_of_n m.MetaJournal.m_frag) (string_of_n m.MetaJournal.m_updated)
+                   (string_of_n m.MetaJournal.m_generation))
+  | "ser" :: v :: key :: value :: ts :: exp :: _ ->
+    let r = { Codec.r_key = bytes_of_hex key; r_value = bytes_of_hex value; r_ts = n_of_string ts; r_exp = n_of_string exp } in
+    let ver = n_of_string v in
+    let d = Codec.serialize ver r in
+    let klen = n_of_int (Stdlib.List.length r.Codec.r_key) and vlen = n_of_int (Stdlib.List.length r.Codec.r_value) in
+    Stdlib.Printf.sprintf "%s %d hdr=%s total=%s blocks=%s" (hash_str d) (Stdlib.List.length d)
+      (string_of_n (Codec.header_size ver klen)) (string_of_n (Codec.total_size ver klen vlen))
+      (string_of_n (Codec.extent_blocks ver klen vlen))
+  | "parse" :: v :: h :: _ ->
+    (match Codec.parse_head (n_of_string v) (bytes_of_hex h) with
+     | None -> "PANIC"
+     | Some None -> "none"
+     | Some (Some (((k, vl), ts), ex)) ->
+       Stdlib.Printf.sprintf "ok %s %s %s %s" (hex_of_bytes k) (string_of_n vl) (string_of_n ts) (string_of_n ex))
+  | "hrange" :: v :: h :: _ -> if Codec.header_range_ok (n_of_string v) (bytes_of_hex h) then "some" else "none"
+  | "stamp" :: v :: sector :: h :: _ -> hash_str (Codec.stamp (n_of_string v) (n_of_string sector) (bytes_of_hex h))
+  | "holds" :: h :: key :: vlen :: ts :: _ ->
+    if Codec.sector_holds (bytes_of_hex h) (bytes_of_hex key) (n_of_string vlen) (n_of_string ts) then "true" else "false"
+  | "coalesce" :: exts :: _ ->
+    (match MetaJournal.coalesce (parse_exts exts) with None -> "err" | Some l -> "ok " ^ exts_str l)
+  | _ -> failwith "codec: unknown function"
+
+(* readdev <path>: the independent reader of the documented layout (read-only, no TTL filtering) *)
+let run_readdev toks =
+  match toks with
+  | path :: _ ->
+    let img = image_of_string (read_file path) in
+    let cfg = { Recovery.c_ro = true; Recovery.c_allow_ambiguous = true; Recovery.c_now = None;
+                Recovery.c_recsize = N0 } in
+    (match Recovery.open_image cfg img with
+     | (Recovery.Panic, _) -> "PANIC"
+     | (Recovery.Rej e, _) -> "unreadable " ^ rerr_str e
+     | (Recovery.Ok o, _) ->
+       let blk i = Stdlib.List.nth img i in
+       let mb = if MetaJournal.select_meta (blk 0) (blk 7) then blk 7 else blk 0 in
+       let (recs, size) = match MetaJournal.decode_meta mb with
+         | Some m -> (string_of_n m.MetaJournal.m_records, string_of_n m.MetaJournal.m_size)
+         | None -> ("?", "?") in
+       let total = n_of_int (Stdlib.List.length img) in
+       let journal = match MetaJournal.decode_journal (Recovery.slot_bytes img N0) (Recovery.slot_bytes img (n_of_int 1)) total with
+         | Some (_, []) -> "clear" | Some _ -> "active" | None -> "corrupt" in
+       let keys = Stdlib.Buffer.create 256 in
+       Stdlib.List.iter (fun (e : Recovery.entry) ->
+           let v = match Recovery.read_value o.Recovery.o_version img e with
+             | Some bytes -> Stdlib.Printf.sprintf "%016Lx" (fnv_bytes bytes) | None -> "err" in
+           Stdlib.Buffer.add_string keys
+             (Stdlib.Printf.sprintf "%s:%s:%s:%s:%s;" (hex_of_bytes e.Recovery.e_key)
+                (string_of_n e.Recovery.e_ts) (string_of_n e.Recovery.e_exp) (string_of_n e.Recovery.e_vlen) v))
+         o.Recovery.o_idx;
+       Stdlib.Printf.sprintf "flushed v=%s n=%s size=%s journal=%s keys=%s"
+         (string_of_n o.Recovery.o_version) recs size journal
+         (let k = Stdlib.Buffer.contents keys in if k = "" then "-" else k))
+  | _ -> failwith "readdev: missing path"
+
 let run_note _ = "note"
 
 let handlers : (string * (string list -> string)) list ref =
-  ref [ ("fs", run_fs); ("open", run_open); ("note", run_note) ]
+  ref [ ("fs", run_fs); ("open", run_open); ("note", run_note); ("codec", run_codec); ("readdev", run_readdev) ]
 
 
 let () =
